@@ -12,11 +12,12 @@ from reactivex.disposable import Disposable
 from vlib.core import FAIL, OK, SKIP, Check, HarnessError
 from vlib.difftools import (
     HProbe,
-    guard_spin,
+    guard_all,
     coldify,
     dispose_tree,
     first_diff,
     norm_tree,
+    runaway,
     runtime_multiset,
     shift_intervals,
     sort_intervals,
@@ -32,34 +33,43 @@ LEVEL = "exploration"
 RULE = (
     "ONE observable object is built from cold/synchronous logged virtual-time sources (no hot source anywhere, also not "
     "inside operator arguments), non-multicast operators and deterministic callbacks, and subscribed 2-3 times: each "
-    "later subscription either overlaps the previous one at a generated offset (0 = same instant) or follows its "
-    "termination (or its disposal at a fixed horizon of 100 ticks when it never terminates) after a generated gap. "
-    "Checks `generic` and `op.<name>`: random well-kinded pipelines (1..4 quick / 1..6 thorough operators; the `op.<name>` "
-    "checks give each of the 114 admitted operator forms the same budget by forcing it into the pipeline between 0-1 "
-    "(thorough 0-2) random prefix and suffix operators; operators from the shared table minus the "
-    "tags multicast/abstime/scripted and minus window_when/buffer_when, whose harness callback is a counter; roots = one "
+    "later subscription either overlaps the previous one at a generated offset 0..6 (0 = same instant; class "
+    "overlap-after-first-element counts overlaps that start after the previous subscriber already got an element) or "
+    "follows the previous one's termination / disposal after a generated gap 0..6; each subscription may be disposed "
+    "early at a generated tick 0..8 after it was made (classes cut-before-terminal, resubscribed-after-early-dispose), "
+    "otherwise it is disposed at a horizon of 100 ticks if still running. "
+    "Checks `generic` and `op.<name>`: random well-kinded pipelines over the shared operator table minus the tags "
+    "multicast/abstime/scripted and minus window_when/buffer_when (their grammar callback is a counter); roots = one "
     "source or merge/concat/zip/combine_latest/amb/catch/on_error_resume_next/fork_join/with_latest_from/"
-    "concat_with_iterable/catch_with_iterable/defer). Checks `scripted` and `form.<name>`: one of 31 creation forms (while_do, do_while, "
-    "if_then, case, defer, generate, generate_with_relative_time, for_in, from_callback, from_callable, repeat_value, "
-    "catch, catch_with_iterable, on_error_resume_next incl. callable sources, concat, concat_with_iterable, zip, merge, "
+    "concat_with_iterable/catch_with_iterable/defer; `generic` draws 1..4 (thorough 1..6) operators freely, the 114 "
+    "`op.<name>` checks give every admitted operator form the same budget by forcing it between 0-1 (thorough 0-2) random "
+    "prefix and suffix operators. Checks `scripted` and `form.<name>`: 31 creation forms (while_do, do_while, if_then, "
+    "case, defer, generate, generate_with_relative_time, for_in, from_callback, from_callable, repeat_value, catch, "
+    "catch_with_iterable, on_error_resume_next incl. callable sources, concat, concat_with_iterable, zip, merge, "
     "combine_latest, fork_join, amb, with_latest_from, window_when, buffer_when, using, range, of, from_iterable, timer, "
-    "interval, retry/repeat budgets) whose stateful user callbacks are *scripts* reset by the harness at every "
+    "interval, retry-under-repeat budgets) whose stateful user callbacks are scripts reset by the harness at every "
     "subscribe, followed by optional repeat/retry and 0-2 grammar operators; subscriptions strictly sequential. "
-    "Oracle (differential): every subscription's probe tree (notifications of the subscriber and of every "
-    "window/group inner subscriber, ticks relative to the subscribe tick, values by canonical form, observable ids "
-    "removed) equals the first subscription's tree and the tree of a single subscription to a freshly built "
-    "observable in a separate lab; per logged source the multiset of subscription intervals equals the union of the "
-    "solo run's intervals shifted to each subscribe tick. Non-trivial: the first trace has >=1 on_next and the "
-    "pipeline contains an operator/creation form with per-subscription state (index, counter, iterator, queue, "
-    "flag; see STATEFUL). Distinct = distinct case JSON."
+    "Check `abstime`: delay / delay_subscription / take_until_with_time / skip_until_with_time / timeout(+other) / timer "
+    "with an ABSOLUTE datetime argument, and timestamp, on TestScheduler and HistoricalScheduler, with 0-1 grammar "
+    "operators before and after. "
+    "Oracle (differential): the reference for a subscription is a single subscription (same early-dispose tick) to a "
+    "FRESHLY BUILT observable in a separate lab - subscribed at tick 0 and compared after shifting by the subscribe tick "
+    "(relative checks: this is the 'same notifications, same relative timing as the first subscription' clause, since "
+    "all subscriptions are compared with the same reference), or subscribed at the same absolute tick and compared "
+    "unshifted (`abstime`). Compared: the probe tree (notifications of the subscriber and of every window/group inner "
+    "subscriber, ticks, values by canonical form, observable ids removed) and, per logged source, the multiset of "
+    "subscription intervals, which must equal the union of the references' intervals (sources created by callbacks "
+    "likewise). Non-trivial: the first trace has >=1 on_next and the pipeline contains an operator/creation form with "
+    "per-subscription state (index, counter, iterator, queue, flag; see STATEFUL_OPS). Distinct = distinct case JSON."
 )
 ASSUMPTIONS = [
     "all sources are cold (timeline relative to subscription) or synchronous-cold; hot specs drawn inside operator arguments are re-read as cold",
-    "timestamp (absolute clock values) is excluded; every other time operator only yields relative quantities",
+    "relative checks exclude timestamp (absolute clock values); every other time operator of the table only yields relative quantities; absolute-time arguments are judged in `abstime` against a solo run at the same absolute tick, which is what 'fresh per-subscription state' implies when results legitimately depend on the clock",
     "grammar callbacks are pure functions of their arguments and create fresh logged inner sources per call; scripted callbacks are reset at each subscribe, therefore used with sequential subscriptions only",
-    "a subscription that has not terminated 100 ticks after it was made is disposed (probe and inner probes); the same happens in the solo reference run, so the comparison stays like-for-like",
-    "a solo run in which an exception escapes the scheduler, or any run hitting the spin guard / work budget, is discarded as inconclusive and counted",
+    "a subscription that has not terminated 100 ticks after it was made is disposed (probe and inner probes); the same happens in the reference run, so the comparison stays like-for-like",
+    "runs are discarded as inconclusive (and counted) when: the scheduler dequeues >=95 items without advancing its clock (spin bump, C29), the work budget is exceeded, the Python stack exceeds 400 frames or a RecursionError shows up in a trace (unbounded synchronous recursion is cut at a caller-dependent depth), or an exception escapes the scheduler in a reference run",
     "one-shot user iterables (a generator passed as the source list) are excluded: their exhaustion is the user's state, not the library's",
+    "re-subscribing from inside one of the subscriber's own callbacks is not generated",
 ]
 
 H = 100  # horizon (ticks after subscribe) at which a still-running subscription is disposed
@@ -100,10 +110,10 @@ def _world(build, plan, inner_pol, t0=0, clock="test"):
 
     plan[0] is the first subscription (at tick t0); plan[k] = {"mode": "ov", "d": n} subscribes n ticks after
     subscription k-1 was made; {"mode": "seq", "d": n} subscribes n ticks after subscription k-1 terminated or was
-    disposed.  Every entry may carry "cut": c - the subscription is disposed c ticks after it was made (default: the
+    disposed; {"mode": "drain", "d": n} subscribes n ticks after the scheduler ran dry.  Every entry may carry "cut": c - the subscription is disposed c ticks after it was made (default: the
     horizon H).  Returns (lab, probes, number of build-time sources)."""
     lab = Lab(clock)
-    guard_spin(lab)
+    guard_all(lab)
     obs, reset = build(lab)
     nb = len(lab.sources)
     probes = []
@@ -140,6 +150,15 @@ def _world(build, plan, inner_pol, t0=0, clock="test"):
 
     lab.at(t0, subscriber(0))
     lab.run()
+    # "drain": the next subscription is made only after the scheduler ran completely dry (every earlier subscription
+    # terminated or disposed, including inner window/group subscribers that keep an upstream alive) - needed for
+    # scripted callbacks, whose reset at subscribe must not be seen by a remnant of the previous subscription
+    while lab.inconclusive is None and lab.escaped is None and len(probes) < len(plan) and plan[len(probes)]["mode"] == "drain":
+        k = len(probes)
+        lab.at(lab.now() + plan[k]["d"], subscriber(k))
+        lab.run()
+        if len(probes) == k:
+            break
     return lab, probes, nb
 
 
@@ -179,6 +198,8 @@ def _judge(case, build, plan, inner_pol, culprits, stateful, cls, absolute=False
     for k in range(len(plan)):
         A, pa, _ = ref_for(k)
         rtrees.append(norm_tree(pa[0], 0 if absolute else pa[0].sub_tick))
+    if runaway(trees + rtrees):
+        return SKIP("recursion")
     cls = list(cls)
     cls.append(f"subs:{len(plan)}")
     for k in range(1, len(plan)):
@@ -260,7 +281,7 @@ def _stateful_tags(pc):
 
 def _run_generic(case):
     pc = case["pipe"]
-    plan = [{"mode": "first"}] + case["subs"]
+    plan = _plan(case, case["subs"])
     inner_pol = {"mode": case.get("inner", "now"), "d": 1}
 
     def build(lab):
@@ -272,6 +293,16 @@ def _run_generic(case):
 
 
 _sub = st.fixed_dictionaries({"mode": st.sampled_from(["ov", "ov", "seq"]), "d": st.integers(0, 6)})
+# per subscription: None = runs to its end (horizon), n = disposed n ticks after it was made
+_cuts = st.lists(st.one_of(st.none(), st.none(), st.none(), st.integers(0, 8)), min_size=3, max_size=3)
+
+
+def _plan(case, subs):
+    cuts = case.get("cuts") or []
+    plan = [{"mode": "first"}] + [dict(x) for x in subs]
+    for k, e in enumerate(plan):
+        e["cut"] = cuts[k] if k < len(cuts) else None
+    return plan
 
 
 _SRC_KINDS = ("cold", "cold", "sync")
@@ -279,7 +310,7 @@ _SRC_KINDS = ("cold", "cold", "sync")
 
 def _generic_cases(max_ops):
     pipe = pipelines(max_ops=max_ops, min_ops=1, src_kinds=_SRC_KINDS, conforming=True, exclude_tags=EXCL_TAGS, exclude_ops=EXCL_OPS).map(coldify)
-    return st.fixed_dictionaries({"pipe": pipe, "subs": st.lists(_sub, min_size=1, max_size=2), "inner": st.sampled_from(["now", "now", "late"])})
+    return st.fixed_dictionaries({"pipe": pipe, "subs": st.lists(_sub, min_size=1, max_size=2), "cuts": _cuts, "inner": st.sampled_from(["now", "now", "late"])})
 
 
 GEN_OPS = sorted(n for n, o in OPS.items() if not (o.tags & set(EXCL_TAGS)) and n not in EXCL_OPS)
@@ -306,7 +337,7 @@ def _focus_cases(name, extra):
             chain.append(["materialize", {}])
         chain.append([name, draw(o.args)])
         chain += draw(suf)["ops"]
-        case = {"pipe": {"root": pc["root"], "ops": chain}, "subs": draw(st.lists(_sub, min_size=1, max_size=2)), "inner": draw(st.sampled_from(["now", "now", "late"]))}
+        case = {"pipe": {"root": pc["root"], "ops": chain}, "subs": draw(st.lists(_sub, min_size=1, max_size=2)), "cuts": draw(_cuts), "inner": draw(st.sampled_from(["now", "now", "late"]))}
         return coldify(case)
 
     return _c()
@@ -463,7 +494,7 @@ def _build_form(lab, B, sc, form, a):
 
 def _run_scripted(case):
     form, a = case["form"], case["args"]
-    plan = [{"mode": "first"}] + [{"mode": "seq", "d": d} for d in case["gaps"]]
+    plan = _plan(case, [{"mode": "drain", "d": d} for d in case["gaps"]])
     inner_pol = {"mode": "now"}
 
     def build(lab):
@@ -492,9 +523,81 @@ def _scripted_cases(max_ops, only=None):
         form = only if only is not None else draw(st.sampled_from(sorted(FORMS)))
         args = draw(FORMS[form])
         resub = draw(st.one_of(st.none(), st.none(), st.tuples(st.sampled_from(["repeat", "retry"]), st.integers(0, 3)).map(list)))
-        return {"form": form, "args": args, "resub": resub, "ops": draw(tail), "gaps": draw(st.lists(st.integers(0, 5), min_size=1, max_size=2))}
+        return {"form": form, "args": args, "resub": resub, "ops": draw(tail), "gaps": draw(st.lists(st.integers(0, 5), min_size=1, max_size=2)), "cuts": draw(_cuts)}
 
     return _c()
+
+
+# ---------------------------------------------------------------------------------------
+# check 3: absolute-time arguments and clock-valued elements (reference = solo run subscribed at the same tick)
+
+ABS_FORMS = ["delay", "delay_subscription", "take_until_with_time", "skip_until_with_time", "timeout", "timeout_other", "timer", "timer_period", "timestamp"]
+
+
+def _abs_time(D):
+    from datetime import timedelta
+
+    from reactivex.internal.constants import UTC_ZERO
+
+    return UTC_ZERO + timedelta(seconds=D)
+
+
+def _run_abstime(case):
+    form, D = case["form"], case["D"]
+    plan = _plan(case, case["subs"])
+
+    def build(lab):
+        B = Builder(lab)
+        o = B.src(case["src"])
+        for name, args in case["pre"]:
+            o = B.build_op(name, args)(o)
+        at = _abs_time(D)
+        if form == "delay":
+            o = o.pipe(ops.delay(at))
+        elif form == "delay_subscription":
+            o = o.pipe(ops.delay_subscription(at))
+        elif form == "take_until_with_time":
+            o = o.pipe(ops.take_until_with_time(at))
+        elif form == "skip_until_with_time":
+            o = o.pipe(ops.skip_until_with_time(at))
+        elif form == "timeout":
+            o = o.pipe(ops.timeout(at))
+        elif form == "timeout_other":
+            o = o.pipe(ops.timeout(at, B.src(case["other"])))
+        elif form == "timer":
+            o = reactivex.merge(o, reactivex.timer(at, scheduler=lab.sched))
+        elif form == "timer_period":
+            o = reactivex.merge(o, reactivex.timer(at, lab.rel(case["period"]), scheduler=lab.sched).pipe(ops.take(3)))
+        elif form == "timestamp":
+            o = o.pipe(ops.timestamp())
+        else:
+            raise HarnessError(f"abstime form {form}")
+        for name, args in case["post"]:
+            o = B.build_op(name, args)(o)
+        return o, None
+
+    culprits = [form + "(absolute)"] + sorted({n for n, _ in case["pre"] + case["post"]})
+    cls = ["form:" + form, "clock:" + case["clock"]]
+    res = _judge(case, build, plan, {"mode": "now"}, culprits, True, cls, absolute=True, clock=case["clock"])
+    return res
+
+
+def _abstime_cases():
+    chain = pipelines(max_ops=1, roots=["single"], src_kinds=_SRC_KINDS, exclude_tags=("multicast", "scripted"), exclude_ops=EXCL_OPS, max_len=1).map(lambda pc: coldify(pc["ops"]))
+    return st.fixed_dictionaries(
+        {
+            "form": st.sampled_from(ABS_FORMS),
+            "D": st.integers(0, 16),
+            "period": st.integers(1, 3),
+            "src": s_src(_SRC_KINDS, max_len=4),
+            "other": s_src(_SRC_KINDS, max_len=2),
+            "pre": chain,
+            "post": chain,
+            "subs": st.lists(_sub, min_size=1, max_size=2),
+            "cuts": _cuts,
+            "clock": st.sampled_from(["test", "test", "hist"]),
+        }
+    )
 
 
 def checks(tier):
@@ -504,6 +607,7 @@ def checks(tier):
         Check("generic", _run_generic, strategy=_generic_cases(4 if q else 6), examples={"quick": 2400, "thorough": 16 * 8000}, shards=sh),
         Check("scripted", _run_scripted, strategy=_scripted_cases(2 if q else 3), examples={"quick": 800, "thorough": 16 * 3000}, shards=sh),
     ]
+    out.append(Check("abstime", _run_abstime, strategy=_abstime_cases(), examples={"quick": 1200, "thorough": 16 * 5000}, shards=sh))
     # equal budget for every operator form / creation form
     for name in GEN_OPS:
         out.append(Check("op." + name, _run_generic, strategy=_focus_cases(name, 1 if q else 2), examples={"quick": 48, "thorough": 1600}, shards=sh))
